@@ -15,19 +15,22 @@ def run(ck, aspect):
     rng = ck.rng
     try:
         n = 250 if ck.tier == "quick" else 2500
-        reqs, meta = [], []
+        reqs, mreqs, meta = [], [], []
         for k in range(n):
             nlines = rng.randint(2, 7)
             lines = ["    f%d: %s," % (i, rng.choice(["> 10", '"abc"', "Some(3)", "[1, 2, ..]", "é_ü", "x"])) for i in range(nlines)]
             src = "\n".join(lines) + "\n"
             m = rng.choice([1, 2, 3, 3, 4, 5])
             ents = []
+            ments = []
             shown = []
             prev = None
             for q in range(m):
                 r = rng.random()
+                same_node = False
                 if prev is not None and r < 0.25:
                     li, a, b, act, exp = prev            # an equal neighbour: same place, same texts
+                    same_node = rng.random() < 0.6        # ... pushed against the very same node (as a map does for missing keys)
                 elif prev is not None and r < 0.45:
                     li, a, b = prev[0], prev[1], prev[2]  # same place, other texts
                     act, exp = "v%02d" % rng.randint(0, 99), "p%02d" % rng.randint(0, 99)
@@ -42,13 +45,15 @@ def run(ck, aspect):
                     b = len(lines[li]) - 1
                     act, exp = "v%02d" % rng.randint(0, 99), "p%02d" % rng.randint(0, 99)
                 prev = (li, a, b, act, exp)
-                ents.append("%d %d %d %d simple:%s %s none" % (li + 1, a, li + 1, b, hexs(exp), hexs(act)))
+                ments.append("%d %d %d %d simple:%s %s none" % (li + 1, a, li + 1, b, hexs(exp), hexs(act)))
+                ents.append("%d %d %d %d %s %s none" % (li + 1, a, li + 1, b, "prev" if same_node else "simple:" + hexs(exp), hexs(act)))
                 shown.append(prev)
             fn = "r%d.rs" % k
             open(os.path.join(scratch, fn), "wb").write(src.encode("utf-8"))
             reqs.append("display %s %s 1 %s %d %s" % (hexs(scratch), hexs(fn), hexs(src), m, " ".join(ents)))
+            mreqs.append("display %s %s 1 %s %d %s" % (hexs(scratch), hexs(fn), hexs(src), m, " ".join(ments)))
             meta.append((src, shown))
-        model = ck.lean_batch(reqs)
+        model = ck.lean_batch(mreqs)
         impl = ck.rt_batch(reqs)
         dis = 0
         dup = same_place = 0
